@@ -431,6 +431,67 @@ class Function:
             out.append((b, 1, b.succs[1], cn, False))
         return out
 
+    def compound_groups(self):
+        """For if/while/for statements whose condition is a short-circuit expression the CFG spreads the test over
+        several blocks, so no single edge carries "the whole condition is false".  Returns
+        [(edges, cond Node, polarity, other side entry blocks, statement Node)] where `edges` is the set of CFG edges
+        that leave the evaluation of the condition with the given truth value."""
+        if getattr(self, "_groups", None) is not None:
+            return self._groups
+        groups = []
+        nodes = self.nodes
+        blocks = self.blocks
+        by_term = {}
+        for b in blocks.values():
+            if b.term is not None:
+                by_term.setdefault(b.term, []).append(b)
+        for n in self.walk():
+            if n.k not in ("IfStmt", "WhileStmt", "ForStmt", "DoStmt", "ConditionalOperator"):
+                continue
+            c = n.role("cond")
+            if c is None:
+                continue
+            cs = c.strip()
+            if not (cs.k == "BinaryOperator" and cs.op in ("&&", "||")):
+                continue
+            sblocks = by_term.get(n.id, [])
+            if len(sblocks) != 1 or len(sblocks[0].succs) != 2:
+                continue
+            logical = set()
+            stack = [cs]
+            while stack:
+                x = stack.pop().strip()
+                if x.k == "BinaryOperator" and x.op in ("&&", "||"):
+                    logical.add(x.id)
+                    stack.extend(x.c)
+            region = {sblocks[0].id}
+            for lid in logical:
+                for b in by_term.get(lid, []):
+                    region.add(b.id)
+            t_entry, f_entry = sblocks[0].succs[0], sblocks[0].succs[1]
+            true_edges, false_edges = [], []
+            ok = True
+            for bid in region:
+                b = blocks[bid]
+                if len(b.succs) != 2:
+                    ok = False
+                    break
+                for si, sx in enumerate(b.succs):
+                    if sx is None or sx in region:
+                        continue
+                    if sx == t_entry:
+                        true_edges.append((bid, si))
+                    elif sx == f_entry:
+                        false_edges.append((bid, si))
+                    else:
+                        ok = False
+            if not ok or not true_edges or not false_edges:
+                continue
+            groups.append((true_edges, c, True, [f_entry], n))
+            groups.append((false_edges, c, False, [t_entry], n))
+        self._groups = groups
+        return groups
+
     def facts_at_block(self, bid, normal_exit=False):
         """branch outcomes that hold on every path from ENTRY to block `bid`
         (normal_exit=True: to EXIT through a normally completing block)"""
@@ -440,22 +501,29 @@ class Function:
         facts = []
         tb = self.throw_blocks() if normal_exit else ()
         nodes = self.nodes
+        r0 = self.reachable(self.entry, removed_blocks=tb)
+        if bid not in r0:
+            self._facts_cache[key] = facts
+            return facts
         for (b, si, s, cn, pol) in self.branch_edges():
             if s is None:
                 continue
-            # does removing the *other* outcome... no: the fact (cn,pol) holds iff every path crosses edge (b,si)
+            # the fact (cn == pol) holds at bid iff every path to bid crosses the edge (b, si)
             r = self.reachable(self.entry, removed_edges=[(b.id, si)], removed_blocks=tb)
             if bid in r:
-                continue
-            # the edge dominates bid (bid must be reachable at all)
-            r0 = self.reachable(self.entry, removed_blocks=tb)
-            if bid not in r0:
                 continue
             other = b.succs[1 - si]
             rej = other is not None and not self.normal_exit_reachable_from(other)
             tn = nodes.get(b.term) if b.term is not None else None
             belief = (tn is not None and tn.is_belief()) or cn.is_belief()
             facts.append(Fact(cn, pol, belief, rej, b.id))
+        for (edges, cn, pol, others, stmt) in self.compound_groups():
+            r = self.reachable(self.entry, removed_edges=edges, removed_blocks=tb)
+            if bid in r:
+                continue
+            rej = all(o is not None and not self.normal_exit_reachable_from(o) for o in others)
+            belief = stmt.is_belief() or cn.is_belief()
+            facts.append(Fact(cn, pol, belief, rej, edges[0][0]))
         self._facts_cache[key] = facts
         return facts
 
